@@ -200,7 +200,14 @@ func runCheck(cmd, id, repo, verif, tier string, keep bool, only string, verbose
 	}
 	tGen := time.Since(t0).Seconds() - tLoad
 
-	filter := func(o *Obligation) bool { return hasID(o.ids, id) }
+	// clauses labelled @slow.* need solver time close to the quick budget: they are decided in the
+	// thorough tier only (and never counted in quick runs)
+	filter := func(o *Obligation) bool {
+		if tier != "thorough" && o.clause != nil && strings.HasPrefix(o.clause.label, "slow") {
+			return false
+		}
+		return hasID(o.ids, id)
+	}
 	cfg.noRetry = map[string]bool{}
 	if kb, err := os.ReadFile(filepath.Join(verif, "known_findings.json")); err == nil {
 		var kf KnownFile
